@@ -12,7 +12,7 @@
 (*                           is = SHARD mod NSHARDS                        *)
 (*   GEN_OUT    output file                                                *)
 (***************************************************************************)
-EXTENDS TA, TLC, Json, IOUtils, SequencesExt
+EXTENDS TA, TLC, Json, IOUtils, SequencesExt, FiniteSetsExt
 
 Env(n, dflt) == IF n \in DOMAIN IOEnv THEN IOEnv[n] ELSE dflt
 Mode    == Env("GEN_MODE", "pair")
@@ -37,17 +37,19 @@ Tuples(Q, n) == IF n = 0 THEN {<<>>}
                 ELSE IF n = 1 THEN {<<q>> : q \in Q}
                 ELSE {<<p, q>> : p \in Q, q \in Q}
 AllRules(Q) == UNION {{<<s[1], k, q>> : k \in Tuples(Q, s[2]), q \in Q} : s \in Alpha}
-RuleSets(Q, m) == {R \in SUBSET AllRules(Q) : Cardinality(R) <= m}
+RuleSets(Q, m) == UNION {kSubset(k, AllRules(Q)) : k \in 0..m}
 Auts(Q, m) == {[fin |-> F, rules |-> R] : F \in SUBSET Q, R \in RuleSets(Q, m)}
 
-ASeq == SetToSeq(Auts(0..(NQ - 1), MaxR))
-BSeq == SetToSeq(Auts(0..(NQB - 1), MaxRB))
-MyIdx == {i \in 1..Len(ASeq) : i % NShards = Shard}
+\* LET-bound values are evaluated once (a top-level definition that reads IOEnv is re-evaluated at every use)
+Cases ==
+  LET as == SetToSeq(Auts(0..(NQ - 1), MaxR))
+      mine == {i \in 1..Len(as) : i % NShards = Shard}
+  IN IF Mode = "pair"
+     THEN LET bs == SetToSeq(Auts(0..(NQB - 1), MaxRB))
+          IN UNION {{[id |-> <<i, j>>, A |-> as[i], B |-> bs[j]] : j \in 1..Len(bs)} : i \in mine}
+     ELSE {[id |-> <<i>>, A |-> as[i]] : i \in mine}
 
-PairCases == UNION {{[id |-> <<i, j>>, A |-> ASeq[i], B |-> BSeq[j]] : j \in 1..Len(BSeq)} : i \in MyIdx}
-SingleCases == {[id |-> <<i>>, A |-> ASeq[i]] : i \in MyIdx}
-Cases == IF Mode = "pair" THEN PairCases ELSE SingleCases
-
-ASSUME /\ ndJsonSerialize(OutFile, SetToSeq(Cases))
-       /\ PrintT(<<"generated", Cardinality(Cases), "of", Len(ASeq)>>)
+ASSUME LET cs == SetToSeq(Cases) IN
+       /\ ndJsonSerialize(OutFile, cs)
+       /\ PrintT(<<"generated", Len(cs)>>)
 =============================================================================
